@@ -2,7 +2,10 @@
 //!
 //! `vh scope-run --in TREES.ndjson --out REC.ndjson [--builds 0,31] [--no-run]`
 //!   every line of TREES is a binder structure enumerated by TLC from spec/Scope.tla
-//!   ({"params":[names], "body": node}); it is rendered as the body of `T.f` in a small module,
+//!   ({"params":[names], "body": node}), optionally with a FORM VECTOR ("forms": one spelling per place
+//!   where the surface syntax can vary, see SURFACE FORMS in spec/Scope.tla: how a lambda's parameter
+//!   list is annotated and where the lambda stands, in which pattern a pattern variable is carried,
+//!   shorthand or `as` form of a struct field); it is rendered as the body of `T.f` in a small module,
 //!   and for every identifier occurrence of the structure (the harness knows their positions because
 //!   it writes the text) the answers of `query::definition_location`, `query::all_references` and
 //!   `rewrite::rename` of the real language services are recorded, plus what the property says about
@@ -12,7 +15,7 @@
 //!   the same observations at every local-variable occurrence of real programs (the repository's
 //!   tests, generated programs), where no specified relation is available: the record carries what
 //!   the consistency conditions of ScopeTrace.tla need.
-//! `vh scope-show --tree JSON` prints the rendered text of one structure (development aid).
+//! `vh scope-show --tree JSON [--forms JSON]` prints the rendered text of one structure (development aid).
 use crate::compile::{compile, OptBits, Outcome};
 use crate::exec::wasm_interp;
 use crate::util::{arg, arg_or, flag, guarded, silence_panics, Rng};
@@ -38,6 +41,88 @@ pub struct Occ {
   pub len: u32,
 }
 
+/// The type of the value a carrier (spec/Scope.tla, SURFACE FORMS) matches: the pattern variable is an
+/// int wrapped in struct classes (first field `f`, second field `qq: int`), pairs and one-variant classes.
+#[derive(Clone, Debug)]
+enum Ty {
+  I,
+  S(String, Box<Ty>),
+  T(Box<Ty>),
+  V(Box<Ty>),
+}
+
+fn cap(f: &str) -> String {
+  let mut c = f.chars();
+  match c.next() {
+    Some(h) => h.to_ascii_uppercase().to_string() + c.as_str(),
+    None => String::new(),
+  }
+}
+
+impl Ty {
+  /// the type a carrier word matches when it binds the identifier `id`
+  fn of(carrier: &str, id: &str) -> Ty {
+    let mut cs = carrier.chars();
+    match cs.next() {
+      None | Some('I') => Ty::I,
+      Some('H') => Ty::S(id.to_string(), Box::new(Ty::I)),
+      Some('S') => Ty::S("pp".to_string(), Box::new(Ty::of(cs.as_str(), id))),
+      Some('T') => Ty::T(Box::new(Ty::of(cs.as_str(), id))),
+      Some('V') => Ty::V(Box::new(Ty::of(cs.as_str(), id))),
+      Some(c) => panic!("unknown carrier letter {c} in {carrier}"),
+    }
+  }
+  /// prefix-free code, used in the names of the generated classes
+  fn code(&self) -> String {
+    match self {
+      Ty::I => "I".to_string(),
+      Ty::S(f, t) => format!("S{}{}", cap(f), t.code()),
+      Ty::T(t) => format!("T{}", t.code()),
+      Ty::V(t) => format!("V{}", t.code()),
+    }
+  }
+  fn text(&self) -> String {
+    match self {
+      Ty::I => "int".to_string(),
+      Ty::S(_, _) | Ty::V(_) => self.code(),
+      Ty::T(t) => format!("Pair<{}, int>", t.text()),
+    }
+  }
+  /// the classes the type mentions
+  fn declare(&self, decls: &mut BTreeMap<String, String>) {
+    match self {
+      Ty::I => {}
+      Ty::S(f, t) => {
+        t.declare(decls);
+        decls.insert(self.code(), format!("class {}(val {}: {}, val qq: int) {{}}\n", self.code(), f, t.text()));
+      }
+      Ty::T(t) => t.declare(decls),
+      Ty::V(t) => {
+        t.declare(decls);
+        decls.insert(self.code(), format!("class {}(Only({})) {{}}\n", self.code(), t.text()));
+      }
+    }
+  }
+  /// (prefix, suffix) of the expression that wraps an int expression into a value of the type
+  fn wrap(&self) -> (String, String) {
+    match self {
+      Ty::I => (String::new(), String::new()),
+      Ty::S(_, t) => {
+        let (a, b) = t.wrap();
+        (format!("{}.init({a}", self.code()), format!("{b}, 0)"))
+      }
+      Ty::T(t) => {
+        let (a, b) = t.wrap();
+        (format!("({a}"), format!("{b}, 0)"))
+      }
+      Ty::V(t) => {
+        let (a, b) = t.wrap();
+        (format!("{}.Only({a}", self.code()), format!("{b})"))
+      }
+    }
+  }
+}
+
 struct W {
   out: String,
   line: u32,
@@ -45,13 +130,28 @@ struct W {
   indent: usize,
   occs: Vec<Occ>,
   lits: i64,
+  /// the form vector (spec/Scope.tla: one spelling per place, pre-order); places beyond it take the default
+  forms: Vec<String>,
+  next_form: usize,
+  /// what was consumed: (kind of place, spelling)
+  slots: Vec<(String, String)>,
+  /// generated classes, by name
+  decls: BTreeMap<String, String>,
 }
 
 /// abstract name of the specification -> identifier in the text (two characters, so that the first
-/// and the last character of an occurrence are different query positions); `aa` and `bb` are also
-/// the field names of `P`, so that `{ aa }` (shorthand) and `{ aa as bb }` both occur.
+/// and the last character of an occurrence are different query positions)
 fn ident(n: &str) -> String {
   format!("{n}{n}")
+}
+
+fn default_form(kind: &str) -> &'static str {
+  match kind {
+    "lam0" | "lam1" | "lam2" => "call",
+    "pat" | "let" => "I",
+    "fld" => "S",
+    k => panic!("unknown kind of place {k}"),
+  }
 }
 
 impl W {
@@ -71,22 +171,141 @@ impl W {
     let pad = " ".repeat(self.indent * 2);
     self.w(&pad);
   }
+  /// the spelling of the next place (of the given kind)
+  fn form(&mut self, kind: &str) -> String {
+    let f = match self.forms.get(self.next_form) {
+      Some(f) => f.clone(),
+      None => default_form(kind).to_string(),
+    };
+    self.next_form += 1;
+    self.slots.push((kind.to_string(), f.clone()));
+    f
+  }
+  /// the spelling of a pattern variable's place; none for the wildcard
+  fn pform(&mut self, kind: &str, n: &str) -> String {
+    if n == "_" {
+      String::new()
+    } else {
+      self.form(kind)
+    }
+  }
   /// an identifier occurrence of the structure
   fn id(&mut self, n: &str) {
     let name = ident(n);
     self.occs.push(Occ { name: name.clone(), line: self.line, col: self.col, len: name.len() as u32 });
     self.w(&name);
   }
-  /// a pattern variable or the wildcard
-  fn pat(&mut self, n: &str) {
+  /// the type a pattern variable's place matches (int for the wildcard)
+  fn ty(&mut self, carrier: &str, n: &str) -> Ty {
+    let t = if n == "_" { Ty::I } else { Ty::of(carrier, &ident(n)) };
+    t.declare(&mut self.decls);
+    t
+  }
+  /// a pattern variable in its carrier, or the wildcard
+  fn pat(&mut self, carrier: &str, n: &str) {
     if n == "_" {
       self.w("_");
-    } else {
-      self.id(n);
+      return;
     }
+    let mut cs = carrier.chars();
+    match cs.next() {
+      None | Some('I') => self.id(n),
+      Some('H') => {
+        // shorthand: the field is named like the variable
+        self.w("{ ");
+        self.id(n);
+        self.w(", qq as _ }");
+      }
+      Some('S') => {
+        self.w("{ pp as ");
+        self.pat(cs.as_str(), n);
+        self.w(", qq as _ }");
+      }
+      Some('T') => {
+        self.w("(");
+        self.pat(cs.as_str(), n);
+        self.w(", _)");
+      }
+      Some('V') => {
+        self.w("Only(");
+        self.pat(cs.as_str(), n);
+        self.w(")");
+      }
+      Some(c) => panic!("unknown carrier letter {c}"),
+    }
+  }
+  /// an expression wrapped into a value of type `t`
+  fn wrapped(&mut self, t: &Ty, e: &Value) {
+    let (a, b) = t.wrap();
+    self.w(&a);
+    self.expr(e);
+    self.w(&b);
+  }
+  /// class with variants `tags[i]` carrying `tys[i]` and `mk(sel, n)` choosing the variant by (sel + n) % len
+  fn enum_class(&mut self, prefix: &str, tags: &[&str], tys: &[Ty]) -> String {
+    let name = format!("{prefix}{}", tys.iter().map(|t| t.code()).collect::<String>());
+    let variants: Vec<String> = tags.iter().zip(tys).map(|(g, t)| format!("{g}({})", t.text())).collect();
+    let mut body = String::new();
+    for (i, (g, t)) in tags.iter().zip(tys).enumerate() {
+      let (a, b) = t.wrap();
+      let make = format!("{{ {name}.{g}({a}n{b}) }}");
+      if i + 1 < tags.len() {
+        body.push_str(&format!("if r == {i} {make} else "));
+      } else {
+        body.push_str(&make);
+      }
+    }
+    let decl = format!(
+      "class {name}({}) {{\n  function mk(sel: int, n: int): {name} = {{\n    let s = sel + n;\n    let r = s % {};\n    {body}\n  }}\n}}\n",
+      variants.join(", "),
+      tags.len()
+    );
+    self.decls.insert(name.clone(), decl);
+    name
   }
   fn s<'a>(t: &'a Value, f: &str) -> &'a str {
     t[f].as_str().unwrap_or_else(|| panic!("field {f} of {t}"))
+  }
+  /// `(x[: int], y[: int])` of a lambda; `ann[i]`: is parameter i annotated
+  fn lam_params(&mut self, names: &[&str], ann: &[bool]) {
+    self.w("(");
+    for (i, n) in names.iter().enumerate() {
+      if i > 0 {
+        self.w(", ");
+      }
+      self.id(n);
+      if ann[i] {
+        self.w(": int");
+      }
+    }
+    self.w(") -> ");
+  }
+  /// a lambda of `names` applied to `args`, in the spelling `form`
+  fn lambda(&mut self, form: &str, names: &[&str], body: &Value, args: &[&Value]) {
+    let ann: Vec<bool> = if form == "call" { vec![true; names.len()] } else { form.chars().map(|c| c == 'A').collect() };
+    if form != "call" && !names.is_empty() && ann.len() != names.len() {
+      panic!("spelling {form} of a lambda with {} parameters", names.len());
+    }
+    if form == "call" {
+      self.w("(");
+      self.lam_params(names, &ann);
+      self.expr(body);
+      self.w(")(");
+    } else {
+      self.w(&format!("T.app{}(", names.len()));
+      self.lam_params(names, &ann);
+      self.expr(body);
+      if !args.is_empty() {
+        self.w(", ");
+      }
+    }
+    for (i, a) in args.iter().enumerate() {
+      if i > 0 {
+        self.w(", ");
+      }
+      self.expr(a);
+    }
+    self.w(")");
   }
   fn expr(&mut self, t: &Value) {
     match Self::s(t, "k") {
@@ -109,29 +328,36 @@ impl W {
         self.nl();
         self.w("}");
       }
+      "lam0" => {
+        let f = self.form("lam0");
+        self.lambda(&f, &[], &t["body"], &[]);
+      }
       "lam" => {
-        self.w("((");
-        self.id(Self::s(t, "x"));
-        self.w(": int) -> ");
-        self.expr(&t["body"]);
-        self.w(")(");
-        self.expr(&t["arg"]);
-        self.w(")");
+        let f = self.form("lam1");
+        self.lambda(&f, &[Self::s(t, "x")], &t["body"], &[&t["arg"]]);
+      }
+      "lam2" => {
+        let f = self.form("lam2");
+        self.lambda(&f, &[Self::s(t, "x"), Self::s(t, "y")], &t["body"], &[&t["a1"], &t["a2"]]);
       }
       "mat" => {
-        self.w("match E.mk(sel, ");
+        let (x, y) = (Self::s(t, "x"), Self::s(t, "y"));
+        let (cx, cy) = (self.pform("pat", x), self.pform("pat", y));
+        let tys = [self.ty(&cx, x), self.ty(&cy, y)];
+        let cls = self.enum_class("E", &["A", "B"], &tys);
+        self.w(&format!("match {cls}.mk(sel, "));
         self.expr(&t["scrut"]);
         self.w(") {");
         self.indent += 1;
         self.nl();
         self.w("A(");
-        self.pat(Self::s(t, "x"));
+        self.pat(&cx, x);
         self.w(") -> ");
         self.expr(&t["ba"]);
         self.w(",");
         self.nl();
         self.w("B(");
-        self.pat(Self::s(t, "y"));
+        self.pat(&cy, y);
         self.w(") -> ");
         self.expr(&t["bb"]);
         self.w(",");
@@ -140,15 +366,19 @@ impl W {
         self.w("}");
       }
       "mor" => {
-        self.w("match E.mk(sel, ");
+        let x = Self::s(t, "x");
+        let (c1, c2) = (self.form("pat"), self.form("pat"));
+        let tys = [self.ty(&c1, x), self.ty(&c2, x)];
+        let cls = self.enum_class("E", &["A", "B"], &tys);
+        self.w(&format!("match {cls}.mk(sel, "));
         self.expr(&t["scrut"]);
         self.w(") {");
         self.indent += 1;
         self.nl();
         self.w("A(");
-        self.id(Self::s(t, "x"));
+        self.pat(&c1, x);
         self.w(") | B(");
-        self.id(Self::s(t, "x"));
+        self.pat(&c2, x);
         self.w(") -> ");
         self.expr(&t["body"]);
         self.w(",");
@@ -157,17 +387,21 @@ impl W {
         self.w("}");
       }
       "mor3" => {
-        self.w("match (G.mk(sel, ");
+        let x = Self::s(t, "x");
+        let (c1, c2, c3) = (self.form("pat"), self.form("pat"), self.form("pat"));
+        let tys = [self.ty(&c1, x), self.ty(&c2, x), self.ty(&c3, x)];
+        let cls = self.enum_class("G", &["U", "V", "W"], &tys);
+        self.w(&format!("match ({cls}.mk(sel, "));
         self.expr(&t["scrut"]);
         self.w("), 0) {");
         self.indent += 1;
         self.nl();
         self.w("(U(");
-        self.id(Self::s(t, "x"));
+        self.pat(&c1, x);
         self.w("), _) | (V(");
-        self.id(Self::s(t, "x"));
+        self.pat(&c2, x);
         self.w(") | W(");
-        self.id(Self::s(t, "x"));
+        self.pat(&c3, x);
         self.w("), _) -> ");
         self.expr(&t["body"]);
         self.w(",");
@@ -176,9 +410,20 @@ impl W {
         self.w("}");
       }
       "ifl" => {
+        let x = Self::s(t, "x");
+        let c = self.form("pat");
+        let tys = [Ty::I, self.ty(&c, x)];
+        // variant None carries nothing: declared here
+        let name = format!("O{}", tys[1].code());
+        let (a, b) = tys[1].wrap();
+        let decl = format!(
+          "class {name}(None, Some({})) {{\n  function mk(sel: int, n: int): {name} = {{\n    let s = sel + n;\n    let r = s % 2;\n    if r == 0 {{ {name}.Some({a}n{b}) }} else {{ {name}.None() }}\n  }}\n}}\n",
+          tys[1].text()
+        );
+        self.decls.insert(name.clone(), decl);
         self.w("if let Some(");
-        self.id(Self::s(t, "x"));
-        self.w(") = Opt.mk(sel, ");
+        self.pat(&c, x);
+        self.w(&format!(") = {name}.mk(sel, "));
         self.expr(&t["scrut"]);
         self.w(") {");
         self.indent += 1;
@@ -207,50 +452,80 @@ impl W {
           self.expr(&t["init"]);
           self.w(");");
         } else {
-          self.w("let ");
-          self.id(x);
-          self.w(" = ");
-          self.expr(&t["init"]);
+          let c = self.form("let");
+          if c == "ann" {
+            self.w("let ");
+            self.id(x);
+            self.w(": int = ");
+            self.expr(&t["init"]);
+          } else {
+            let ty = self.ty(&c, x);
+            self.w("let ");
+            self.pat(&c, x);
+            self.w(" = ");
+            self.wrapped(&ty, &t["init"]);
+          }
           self.w(";");
         }
       }
       "ltup" => {
+        let (x, y) = (Self::s(t, "x"), Self::s(t, "y"));
+        let (cx, cy) = (self.pform("pat", x), self.pform("pat", y));
+        let (tx, ty) = (self.ty(&cx, x), self.ty(&cy, y));
         self.w("let (");
-        self.pat(Self::s(t, "x"));
+        self.pat(&cx, x);
         self.w(", ");
-        self.pat(Self::s(t, "y"));
+        self.pat(&cy, y);
         self.w(") = (");
-        self.expr(&t["i1"]);
+        self.wrapped(&tx, &t["i1"]);
         self.w(", ");
-        self.expr(&t["i2"]);
+        self.wrapped(&ty, &t["i2"]);
         self.w(");");
       }
       "lstr" => {
-        // x is bound to field aa, y to field bb; "_" = the wildcard
+        // x is bound to the first field, y to the second; "_" = the wildcard (every field must be
+        // mentioned by a pattern).  Spelling "H": shorthand, the field is named like the variable;
+        // "S" + carrier: `pp as <carrier>`.
         let (x, y) = (Self::s(t, "x"), Self::s(t, "y"));
-        self.w("let { ");
-        let mut first = true;
-        for (field, v) in [("aa", x), ("bb", y)] {
-          if !first {
-            self.w(", ");
-          }
-          first = false;
+        let (fx, fy) = (self.pform("fld", x), self.pform("fld", y));
+        // (field name, field type, None = shorthand / Some(carrier after `as`))
+        let mut fields: Vec<(String, Ty, Option<String>)> = vec![];
+        for (default, v, f) in [("pp", x, &fx), ("qq", y, &fy)] {
           if v == "_" {
-            // every field must be mentioned by a destructuring let
-            self.w(field);
-            self.w(" as _");
-          } else if ident(v) == field {
-            self.id(v);
+            fields.push((default.to_string(), Ty::I, Some(String::new())));
+          } else if f == "H" {
+            fields.push((ident(v), Ty::I, None));
           } else {
-            self.w(field);
-            self.w(" as ");
-            self.id(v);
+            let rest = f.strip_prefix('S').unwrap_or_else(|| panic!("spelling {f} of a struct field"));
+            let ty = self.ty(rest, v);
+            fields.push((default.to_string(), ty, Some(rest.to_string())));
           }
         }
-        self.w(" } = P.init(");
-        self.expr(&t["i1"]);
+        let cls = format!("R{}{}{}{}", cap(&fields[0].0), fields[0].1.code(), cap(&fields[1].0), fields[1].1.code());
+        self.decls.insert(
+          cls.clone(),
+          format!("class {cls}(val {}: {}, val {}: {}) {{}}\n", fields[0].0, fields[0].1.text(), fields[1].0, fields[1].1.text()),
+        );
+        self.w("let { ");
+        for (i, v) in [x, y].iter().enumerate() {
+          if i > 0 {
+            self.w(", ");
+          }
+          let (field, _, carrier) = fields[i].clone();
+          match carrier {
+            None => self.id(v),
+            Some(c) => {
+              self.w(&field);
+              self.w(" as ");
+              self.pat(&c, v);
+            }
+          }
+        }
+        self.w(&format!(" }} = {cls}.init("));
+        let (t1, t2) = (fields[0].1.clone(), fields[1].1.clone());
+        self.wrapped(&t1, &t["i1"]);
         self.w(", ");
-        self.expr(&t["i2"]);
+        self.wrapped(&t2, &t["i2"]);
         self.w(");");
       }
       k => panic!("unknown item kind {k}"),
@@ -261,33 +536,11 @@ impl W {
 pub struct Rendered {
   pub text: String,
   pub occs: Vec<Occ>,
+  /// the places where the spelling varies, as met (pre-order), and the spelling taken
+  pub slots: Vec<(String, String)>,
 }
 
-const PRELUDE: &str = "class Opt(None, Some(int)) {
-  function mk(sel: int, n: int): Opt = {
-    let s = sel + n;
-    let r = s % 2;
-    if r == 0 { Opt.Some(n) } else { Opt.None() }
-  }
-}
-
-class E(A(int), B(int)) {
-  function mk(sel: int, n: int): E = {
-    let s = sel + n;
-    let r = s % 2;
-    if r == 0 { E.A(n) } else { E.B(n) }
-  }
-}
-
-class G(U(int), V(int), W(int)) {
-  function mk(sel: int, n: int): G = {
-    let s = sel + n;
-    let r = s % 3;
-    if r == 0 { G.U(n) } else if r == 1 { G.V(n) } else { G.W(n) }
-  }
-}
-
-class P(val aa: int, val bb: int) {}
+const PRELUDE: &str = "import { Pair } from std.tuples;
 
 class T {
   function show(n: int): int = {
@@ -295,11 +548,29 @@ class T {
     n
   }
 
+  function app0(g: () -> int): int = g()
+
+  function app1(g: (int) -> int, v: int): int = g(v)
+
+  function app2(g: (int, int) -> int, v: int, w: int): int = g(v, w)
+
 ";
 
-/// {"params": [names], "body": blk} -> module text + the structure's identifier occurrences in text order
-pub fn render(t: &Value) -> Rendered {
-  let mut w = W { out: String::new(), line: 0, col: 0, indent: 1, occs: vec![], lits: 0 };
+/// {"params": [names], "body": blk} and a form vector -> module text + the structure's identifier
+/// occurrences in text order
+pub fn render(t: &Value, forms: &[String]) -> Rendered {
+  let mut w = W {
+    out: String::new(),
+    line: 0,
+    col: 0,
+    indent: 1,
+    occs: vec![],
+    lits: 0,
+    forms: forms.to_vec(),
+    next_form: 0,
+    slots: vec![],
+    decls: BTreeMap::new(),
+  };
   w.w(PRELUDE);
   w.w("  function f(sel: int");
   let params: Vec<String> = t["params"].as_array().map(|a| a.iter().map(|x| x.as_str().unwrap().to_string()).collect()).unwrap_or_default();
@@ -319,7 +590,13 @@ pub fn render(t: &Value) -> Rendered {
     w.w(&format!("    Process.println(Str.fromInt(T.f({})));\n", args.join(", ")));
   }
   w.w("  }\n}\n");
-  Rendered { text: w.out, occs: w.occs }
+  // the classes the spellings need (after the function: positions above do not depend on them)
+  let decls: Vec<String> = w.decls.values().cloned().collect();
+  for d in decls {
+    w.w("\n");
+    w.w(&d);
+  }
+  Rendered { text: w.out, occs: w.occs, slots: w.slots }
 }
 
 // ---------------------------------------------------------------------------------------------
@@ -521,14 +798,16 @@ fn std_tuples() -> String {
 }
 
 /// One record per structure (schema: spec/ScopeTrace.tla).  `full` adds the texts (replay / diagnosis).
-pub fn observe_tree(t: &Value, builds: &[u8], do_run: bool, full: bool) -> Value {
-  let r = render(t);
+pub fn observe_tree(t: &Value, forms: &[String], builds: &[u8], do_run: bool, full: bool) -> Value {
+  let r = render(t, forms);
   let mname = "M";
   let mut sources = BTreeMap::new();
   sources.insert(mname.to_string(), r.text.clone());
   // tuples are instances of std.tuples.Pair
   sources.insert("std.tuples".to_string(), std_tuples());
   let mut rec = json!({"t": t, "nocc": r.occs.len(), "accepted": false, "diag": [], "fmt": "none", "run": {},
+                       "slots": r.slots.iter().map(|x| x.0.clone()).collect::<Vec<_>>(),
+                       "forms": r.slots.iter().map(|x| x.1.clone()).collect::<Vec<_>>(),
                        "occ": [], "ren": [], "panics": []});
   if full {
     rec["text"] = json!(r.text);
@@ -615,8 +894,9 @@ pub fn run(args: &[String]) {
     let v: Value = serde_json::from_str(line).unwrap();
     // a line is either the structure itself or {"id":.., "t": structure}
     let t = if v.get("t").is_some() { v["t"].clone() } else { v.clone() };
+    let forms: Vec<String> = v.get("forms").and_then(|x| serde_json::from_value(x.clone()).ok()).unwrap_or_default();
     // {"run": false} on a line: navigation and rename only, no compile-and-run
-    let mut rec = observe_tree(&t, &builds, do_run && v.get("run").and_then(|x| x.as_bool()).unwrap_or(true), full);
+    let mut rec = observe_tree(&t, &forms, &builds, do_run && v.get("run").and_then(|x| x.as_bool()).unwrap_or(true), full);
     rec["id"] = v.get("id").cloned().unwrap_or(json!(n + 1));
     n += 1;
     if rec["accepted"] == json!(true) {
@@ -633,8 +913,12 @@ pub fn run(args: &[String]) {
 pub fn show(args: &[String]) {
   silence_panics();
   let t: Value = serde_json::from_str(&arg(args, "--tree").expect("--tree")).unwrap();
+  let forms: Vec<String> = match arg(args, "--forms") {
+    Some(f) => serde_json::from_str(&f).unwrap(),
+    None => t.get("forms").and_then(|x| serde_json::from_value(x.clone()).ok()).unwrap_or_default(),
+  };
   let t = if t.get("t").is_some() { t["t"].clone() } else { t };
-  let rec = observe_tree(&t, &[0], true, true);
+  let rec = observe_tree(&t, &forms, &[0], true, true);
   println!("{}", rec["text"].as_str().unwrap());
   let mut r = rec.clone();
   for k in ["text", "fmt_text", "t"] {
